@@ -11,7 +11,9 @@ import sys
 import time
 import traceback
 
-NPROC = int(os.environ.get("VERIF_NPROC", "16"))
+# 16 vCPUs, but memory-heavy Python work stops scaling at ~8-10 processes in
+# this VM (measured: 16 Hypothesis shards take 4.2 s on 8 processes, 5.9 s on 16)
+NPROC = int(os.environ.get("VERIF_NPROC", "10"))
 
 
 class HarnessError(Exception):
@@ -76,10 +78,40 @@ class Stats:
         return self
 
 
-def _shard_entry(arg):
-    fn, item = arg
+def _plain_call(fn, arg):
+    return fn(arg)
+
+
+def _make_big_frame():
+    """Performance only.  CPython 3.11+ keeps frames in 16 KiB 'data stack
+    chunks' that are mmap'ed/munmap'ed whenever the call depth crosses a chunk
+    boundary; recursive generators + Hypothesis cross it ~12 times per case
+    and munmap is very slow under load in this VM.  Calling the shard through
+    a function whose frame needs > 1 MiB makes CPython allocate one 2 MiB
+    chunk that all nested frames then live in."""
+    import types
+
     try:
-        return ("ok", fn(item))
+        n = 140000
+        names = ("fn", "arg") + tuple("_pad%d" % i for i in range(n))
+        code = _plain_call.__code__.replace(co_varnames=names, co_nlocals=len(names))
+        f = types.FunctionType(code, globals())
+        f(lambda a: a, 0)
+        return f
+    except Exception:  # noqa: BLE001 - optimisation only
+        return _plain_call
+
+
+_big_frame_call = None
+
+
+def _shard_entry(arg):
+    global _big_frame_call
+    fn, item = arg
+    if _big_frame_call is None:
+        _big_frame_call = _make_big_frame()
+    try:
+        return ("ok", _big_frame_call(fn, item))
     except CheckFailure as e:  # an oracle raised outside a collecting loop
         st = Stats()
         st.failures.append(e.failure)
@@ -129,6 +161,8 @@ class Ctx:
             if kind == "err":
                 raise HarnessError("worker failed: " + val)
             self.stats.merge(val)
+        if os.environ.get("VERIF_DEBUG"):
+            sys.stderr.write("[%s] %s: %d items, t=%.1fs, evaluations=%d\n" % (self.prop, getattr(fn, "__name__", fn), len(items), self.elapsed(), self.stats.evaluations))
 
     def shard_seeds(self, n, salt=0):
         return [(self.seed * 1000003 + salt * 7919 + i) % (2**63) for i in range(n)]
@@ -236,6 +270,8 @@ def load_replay(path):
 
 def write_replay(here, prop, failure, subdir="new"):
     d = os.path.join(here, "replays", subdir)
+    if os.environ.get("VERIF_EVIDENCE_DIR"):  # sensitivity runs against scratch copies
+        d = os.path.join(os.environ["VERIF_EVIDENCE_DIR"], "replays")
     os.makedirs(d, exist_ok=True)
     body = dict(
         property=prop,
@@ -291,7 +327,7 @@ def write_evidence(ctx, mod, violations, wall):
         wall_s=round(wall, 2),
         violations=int(violations),
     )
-    d = os.path.join(ctx.here, "evidence")
+    d = os.environ.get("VERIF_EVIDENCE_DIR") or os.path.join(ctx.here, "evidence")
     os.makedirs(d, exist_ok=True)
     tmp = os.path.join(d, ctx.prop + ".json.tmp")
     with open(tmp, "w", encoding="utf-8") as f:
@@ -322,7 +358,10 @@ def main(argv, here, repo):
     t0 = time.time()
     try:
         try:
+            # imported in the parent so that forked workers share its pages
             import hypothesis  # noqa: F401
+            import hypothesis.strategies  # noqa: F401
+            import hypothesis.internal.conjecture.engine  # noqa: F401
         except ImportError:
             _install_deps(here)
         import pycparser
